@@ -18,16 +18,19 @@ use smartcore::verif::{set_step_budget, steps, svc_force_orders, svc_take_order_
 
 type DM = DenseMatrix<f64>;
 
-/// logical step budgets (one step = one SMO iteration). Legit fits inside the quantifier stay orders of
-/// magnitude below (the evidence records the worst steps/budget ratio as `steps/budget:*`).
-const SVC_BUDGET: u64 = 5_000_000;
-const SVR_BUDGET: u64 = 5_000_000;
-/// debugging aid: C10_SVR_BUDGET=<steps> overrides the SVR budget (to tell slow convergence from cycling)
-fn svr_budget() -> u64 {
-    std::env::var("C10_SVR_BUDGET").ok().and_then(|s| s.parse().ok()).unwrap_or(SVR_BUDGET)
-}
+/// Logical step budgets (one step = one SMO iteration).
+/// SVC: the worst fit seen on the unchanged tree used 316 steps (evidence: `steps/budget:svc`).
+const SVC_BUDGET: u64 = 1_000_000;
 const ENUM_BUDGET: u64 = 1_000_000;
-const SIGMOID_SVR_BUDGET: u64 = 200_000;
+/// SVR: the number of SMO iterations grows with H = C·max_i K(x_i,x_i)/tol; on 60 000 fits of the
+/// unchanged tree the worst observed steps/H was 1.9 (H from 1 to 1e8, every fit terminated, the slowest
+/// after 1.7e8 steps). The budget of a fit is SVR_HEADROOM·H (at least SVR_MIN_BUDGET); where that
+/// exceeds SVR_CAP the fit runs under SVR_CAP and an overrun is *skipped* (slow convergence cannot be
+/// told from non-termination within an affordable budget), otherwise an overrun is a violation.
+const SVR_HEADROOM: f64 = 30.0;
+const SVR_MIN_BUDGET: u64 = 100_000;
+const SVR_CAP: u64 = 5_000_000;
+const NOT_PSD_SVR_BUDGET: u64 = 200_000;
 /// consecutive case indices that share one data set (and differ in the schedule)
 const FITS_PER_DATASET: u64 = 20;
 
@@ -246,7 +249,7 @@ impl SvcCfg {
 
 fn gen_svc_cfg(r: &mut Rng, n: usize, epoch: usize, kind: usize) -> SvcCfg {
     let p = r.us(1, 5);
-    let style = *r.pick(&["separable", "separable", "overlap", "overlap", "random-labels", "lattice"]);
+    let style = *r.pick(&["separable", "separable", "overlap", "overlap", "random-labels", "lattice", "mirror"]);
     // class sizes: both classes non-empty; 20 % extreme imbalance
     let npos = if r.bool(0.2) {
         if r.bool(0.5) {
@@ -306,9 +309,22 @@ fn gen_svc_cfg(r: &mut Rng, n: usize, epoch: usize, kind: usize) -> SvcCfg {
             }
         }
     }
+    if style == "mirror" {
+        // point-symmetric set: row i + n/2 = −row i with the opposite label (small integers or reals);
+        // makes exact ties and decision values that are exactly zero reachable
+        let integer = r.bool(0.6);
+        let h = n / 2;
+        for i in 0..h {
+            if integer {
+                rows[i] = (0..p).map(|_| r.int(-2, 2) as f64).collect();
+            }
+            rows[i + h] = rows[i].iter().map(|v| -v).collect();
+            sgn[i + h] = -sgn[i];
+        }
+    }
     // exact duplicates of rows (same or conflicting label)
     let mut dup = false;
-    if r.bool(0.15) {
+    if style != "mirror" && r.bool(0.15) {
         for _ in 0..r.us(1, 3) {
             let a = r.below(n);
             let b = r.below(n);
@@ -339,7 +355,10 @@ fn gen_svc_cfg(r: &mut Rng, n: usize, epoch: usize, kind: usize) -> SvcCfg {
     };
     let y: Vec<f64> = sgn.iter().map(|s| if *s > 0.0 { hi } else { lo }).collect();
     let m = r.us(2, 5);
-    let fresh_rows: Vec<Vec<f64>> = (0..m).map(|_| { let s = if r.bool(0.5) { 1.0 } else { -1.0 }; row(r, s) }).collect();
+    let mut fresh_rows: Vec<Vec<f64>> = (0..m).map(|_| { let s = if r.bool(0.5) { 1.0 } else { -1.0 }; row(r, s) }).collect();
+    if style == "mirror" || style == "lattice" {
+        fresh_rows.push(vec![0.0; p]);
+    }
     let k = gen_kernel(r, kind, p);
     SvcCfg {
         x: Mat::from_rows(&rows),
@@ -502,6 +521,7 @@ fn svc_fit_check<K: K64>(kern: K, c: &mut Case, cfg: &SvcCfg, forced: Option<&Ve
     c.bucket_if(w.iter().any(|v| v.abs() >= cfg.c * (1.0 - 1e-12)), "svc:sv-at-bound");
     c.bucket_if(w.iter().any(|v| *v != 0.0 && v.abs() < cfg.c * (1.0 - 1e-12)), "svc:free-sv");
     c.bucket_if(b.abs() > 1e300, "svc:bias-is-sentinel");
+    c.bucket_if(dec.iter().any(|d| *d == 0.0), "svc:decision-value-exactly-zero");
     c.bucket_if((0..n).any(|j| (dec[j] > 0.0) != (ys[j] > 0.0)), "svc:misclassifies-a-training-row");
     c.bucket_if((0..n).all(|j| (dec[j] > 0.0) == (ys[j] > 0.0)), "svc:fits-training-set");
     c.bucket_if(used > 10 * (cfg.epoch as u64) * n as u64, "svc:many-reprocess-steps");
@@ -546,8 +566,9 @@ fn svc_unforced(c: &mut Case) {
         s.sort();
         s == (0..n).collect::<Vec<_>>()
     });
-    if c.violations.is_empty() && c.status == runner::Status::Held {
-        c.check("svc.schedule-is-permutations", ok, "unforced", || format!("recorded visiting orders are not {} permutations of 0..{}: {:?}", epoch + 1, n, log));
+    // harness self-check of the hook (not an oracle of the property)
+    if c.violations.is_empty() && c.status == runner::Status::Held && !ok {
+        c.inconclusive("the recorded visiting orders are not epoch+1 permutations of 0..n (hook or call sequence changed)");
     }
 }
 
@@ -706,27 +727,35 @@ fn svr_fit_check<K: K64>(kern: K, c: &mut Case, cfg: &SvrCfg) {
     let psd = cfg.k.psd();
     let xm: DM = to_dense(&cfg.x);
     let params = SVRParameters::<f64, DM, LinearKernel>::default().with_eps(cfg.eps).with_c(cfg.c).with_tol(cfg.tol).with_kernel(kern);
-    let budget = if psd { svr_budget() } else { SIGMOID_SVR_BUDGET };
+    let kmax = cfg.x.rows().iter().map(|x| cfg.k.eval(x, x).0.abs()).fold(0.0f64, f64::max);
+    let hardness = cfg.c * kmax / cfg.tol;
+    let wanted = (SVR_HEADROOM * hardness).max(SVR_MIN_BUDGET as f64);
+    let decidable = psd && wanted <= SVR_CAP as f64;
+    let budget = if !psd { NOT_PSD_SVR_BUDGET } else if decidable { wanted as u64 } else { SVR_CAP };
+    c.bucket_if(psd && !decidable, "svr:termination-undecidable-zone(30·C·maxK/tol > 5e6)");
     set_step_budget(budget);
-    let r = if psd {
+    let r = if decidable {
         c.must("svr.fit", || SVR::fit(&xm, &cfg.y, params))
     } else {
         // termination is only demanded for positive semi-definite kernels: a budget overrun is counted, not reported
         match guard(|| SVR::fit(&xm, &cfg.y, params)) {
             Ok(v) => {
-                c.count("no-panic:svr.fit(not-psd)");
+                c.count("no-panic:svr.fit");
                 Some(v)
             }
             Err(p) => {
                 set_step_budget(u64::MAX);
                 if p.in_harness() {
                     c.inconclusive(&format!("harness panic: {}", p.short()));
-                } else if p.is_budget() {
+                } else if p.is_budget() && !psd {
                     c.bucket("svr:not-psd-kernel:step-budget-exhausted");
                     c.skip("SVR with a kernel that is not positive semi-definite did not stop within the step budget (termination not demanded)");
+                } else if p.is_budget() {
+                    c.bucket("svr:slow-convergence:step-cap-exhausted");
+                    c.skip("SVR in the slow-convergence zone (30·C·maxK/tol > 5e6) did not stop within the 5e6-step cap; not decidable");
                 } else {
-                    c.count("no-panic:svr.fit(not-psd)");
-                    c.violate("no-panic:svr.fit(not-psd)", &p.loc(), p.short());
+                    c.count("no-panic:svr.fit");
+                    c.violate("no-panic:svr.fit", &p.loc(), p.short());
                 }
                 return;
             }
@@ -735,14 +764,8 @@ fn svr_fit_check<K: K64>(kern: K, c: &mut Case, cfg: &SvrCfg) {
     let used = steps();
     set_step_budget(u64::MAX);
     if std::env::var("C10_DEBUG").is_ok() {
-        let rws = cfg.x.rows();
-        let kii: Vec<f64> = rws.iter().map(|x| cfg.k.eval(x, x).0).collect();
-        let tr: f64 = kii.iter().sum();
-        let kmax = kii.iter().fold(0.0f64, |m, v| m.max(*v));
-        let ymax = cfg.y.iter().fold(0.0f64, |m, v| m.max(v.abs()));
-        let ymin = cfg.y.iter().fold(f64::INFINITY, |m, v| m.min(*v));
-        let ymx = cfg.y.iter().fold(-f64::INFINITY, |m, v| m.max(*v));
-        eprintln!("DEBUG {} {} {} {:e} {:e} {:e} {:e} {:e} {:e} {:e} {} {}", used, n, cfg.k.name(), cfg.c, cfg.tol, cfg.eps, tr, kmax, ymax, ymx - ymin, cfg.style, cfg.dup);
+        // recalibration aid for the budget rule: steps, n, kernel, C, tol, eps, max K(x,x)
+        eprintln!("DEBUG {} {} {} {:e} {:e} {:e} {:e}", used, n, cfg.k.name(), cfg.c, cfg.tol, cfg.eps, kmax);
     }
     let model = match r {
         None => return,
@@ -755,7 +778,9 @@ fn svr_fit_check<K: K64>(kern: K, c: &mut Case, cfg: &SvrCfg) {
             m
         }
     };
-    c.ratio(if psd { "steps/budget:svr" } else { "steps/budget:svr(not-psd)" }, used as f64, budget as f64, &sg, String::new);
+    if decidable {
+        c.ratio("steps/budget:svr", used as f64, budget as f64, &sg, String::new);
+    }
     let js = match serde_json::to_value(&model) {
         Ok(v) => v,
         Err(e) => {
@@ -1075,7 +1100,7 @@ fn main() {
         assumptions: vec![
             "f64 and DenseMatrix only (backend equivalence is C20)",
             "SVC schedules are forced through the verif hook (replayable); the unforced path is exercised by svc_unforced whose schedule is recorded but cannot be replayed bit-for-bit",
-            "non-termination is restated as a logical step budget: 5e6 SMO steps per fit (1e6 in the enumeration); legit fits use far less (see worst ratio steps/budget:*)",
+            "non-termination is restated as a logical step budget. SVC: 1e6 reprocess steps per fit (worst fit on the unchanged tree: 316). SVR: 30·C·max_i K(x_i,x_i)/tol steps (>= 1e5; worst observed steps/(C·maxK/tol) on 60 000 fits: 1.9); where that exceeds 5e6 the fit runs under a 5e6 cap and an overrun is skipped, not reported (all such fits of the unchanged tree terminate when given up to 1.7e8 steps)",
             "SVR KKT slack = 1.0*tol (theoretical bound of the stopping rule: tol/2) + 1e-9*(max|y| + eps + |b| + max_x Σ|w_i K(sv_i,x)|); weights within 1e-12*C of ±C are treated as 'at bound' (the weaker condition)",
             "SVR optimality and termination are only demanded for PSD kernels; for the others a budget overrun is counted as skipped",
             "support vectors are matched to training rows by exact equality; with duplicate rows any assignment that satisfies the conditions is accepted",
